@@ -125,6 +125,7 @@ REWRITES = {
     "underscore_param2": (r"\(&self, _: ", r"(&self, _unused: ", "a parameter pattern `_` is an unnamed (unused) parameter"),
     "pub_fields": (r"(?m)^(\s+)(?!pub\b)([a-z_]\w*)(\s*:\s)", r"\1pub \2\3", "field visibility is irrelevant in a single file"),
     "pub_struct": (r"(?m)^(struct|enum) ", r"pub \1 ", "item visibility is irrelevant in a single file"),
+    "str_to_string": (r"\b(s|str|word|text)\.to_string\(\)", r"vstr::to_string_of(\1)", "&str::to_string() is a String with the same text"),
     "pub_crate": (r"\bpub\(crate\)\s+", r"pub ", "visibility is irrelevant in a single file"),
     "deref_clone": (
         r"(\w+)\.deref\(\)\.clone\(\)", r"vrc::deref_clone(&\1)", "Rc<T>::deref().clone() clones the pointee"),
